@@ -121,7 +121,7 @@ class ErrFlow:
             d = self.prog.decls.get(cal) if cal else None
             return None
 
-        ex = absint.Explorer(self.prog, inline=lambda n, d: False, on_unknown_call=unk,
+        ex = absint.Explorer(self.prog, auto_inline=False, on_unknown_call=unk,
                              loop_bound=self.loop_bound, max_paths=60000)
         outs = ex.run(caller, [TOP] * len(caller.params), {})
         hit = 0
